@@ -216,7 +216,15 @@ func runHist(t *testing.T, rc *RunCtx, prop string) {
 	concurrent := ch.Pick(2, 0) == 1
 	restartMode := ch.Pick(3, 0)
 	big := ch.Pick(3, 0) > 0
-	w := newW1(t, rc, SchedCfg{StayBias: []float64{0, 0.5, 0.8}[ch.Pick(3, 0)], MaxSteps: 1 << 20}, nil)
+	var w *concWorld
+	cfg := SchedCfg{StayBias: []float64{0, 0.5, 0.8}[ch.Pick(3, 0)], MaxSteps: 1 << 20}
+	// In a third of the concurrent histories clients may abandon requests in flight.
+	abandon := concurrent && ch.Pick(3, 0) == 2
+	if abandon {
+		cfg.Action = func(s *Sched, parked []*Park) bool { return w.abandonOne(s) }
+	}
+	w = newW1(t, rc, cfg, nil)
+	w.abandon = abandon
 	defer func() { w.close() }()
 	g := &histGen{rc: rc, ledger: w.ledger, pop: w.pop, nKeys: nKeys, big: big}
 	var desc []string
